@@ -101,7 +101,8 @@ def _falsified(fe, prop, tol=1e-6):
 class Acc:
     """Picklable accumulator of what a job covered."""
 
-    def __init__(self):
+    def __init__(self, parent=None):
+        self.parent = parent   # per-path child accumulators are merged only if the path completes
         self.c = {}            # counters
         self.cex = []          # counterexamples: dict(ob=, cfg=, model=, info=)
         self.samples = []      # written-out cases
@@ -109,6 +110,10 @@ class Acc:
         self.errors = []       # harness errors (strings)
         self.sets = {}         # name -> set of hashable items (e.g. distinct outputs)
         self.by_ob = {}        # obligation name -> [n, discharged]
+
+    def total(self, key):
+        """counter value including the parent's (for caps that span paths)"""
+        return self.c.get(key, 0) + (self.parent.total(key) if self.parent is not None else 0)
 
     def inc(self, key, k=1):
         self.c[key] = self.c.get(key, 0) + k
@@ -225,7 +230,20 @@ def _run_prefix(args):
         frontier = []
         for h in hs:
             def fn(eng, h=h):
-                return h.run(eng, acc)
+                # transactional: what a path records counts only if the path completes
+                # (or ends in Infeasible after its obligations, see explore)
+                pacc = Acc(parent=acc)
+                try:
+                    r = h.run(eng, pacc)
+                except core.Infeasible:
+                    if eng.pending is None or isinstance(eng.pending, core.Infeasible):
+                        pacc.parent = None
+                        acc.merge(pacc)
+                    raise
+                if eng.pending is None:
+                    pacc.parent = None
+                    acc.merge(pacc)
+                return r
 
             def on_abort(eng, ex, h=h):
                 acc.inc("aborted_paths")
